@@ -43,14 +43,14 @@ PROPS = {
     ),
     "C05": dict(
         harnesses=[
-            dict(run=B + "VerifC05Watch", quick=dict(ops=2, keys=1, val9=0, cache=2, later=1), thorough=dict(ops=2, keys=2, val9=0, cache=2, later=2),
-                 covers=["events-delivered", "several-events", "refused", "catch-up-from-cache", "done"]),
+            dict(run=B + "VerifC05Watch", quick=dict(ops=2, keys=1, val9=0, cache=2, later=1, newleader=1), thorough=dict(ops=2, keys=2, val9=0, cache=2, later=2, newleader=1),
+                 covers=["events-delivered", "several-events", "refused", "catch-up-from-cache", "new-leader", "done"]),
             dict(run=B + "VerifC05Ring", quick=dict(maxsize=3), thorough=dict(maxsize=5), covers=["wrapped", "found", "low", "high", "empty"]),
             dict(run=B + "VerifC05Handover", quick=dict(before=1, during=1, preempt=1), thorough=dict(before=1, during=2, preempt=2), covers=["events-delivered", "done"], stress=60),
             dict(run=B + "VerifC05SlowConsumer", quick=dict(batches=5, reads=4, preempt=2), thorough=dict(batches=6, reads=5, preempt=3), covers=["closed-for-slow-consumer", "several-delivered", "done"], stress=200),
             dict(run=B + "VerifC05Fanout", quick=dict(watches=3, events=3), thorough=dict(watches=3, events=5), covers=["several-matching", "some-filtered", "done"]),
         ],
-        bounds=dict(quick="sequential client: 2-write history, watch from a symbolic start revision (0, below/inside/at/above the cached window) on 4 prefixes, 1 further write, event cache of 2 entries (wraps); fan-out: 3 watches on different prefixes and one broadcast batch of 3 put/delete events on any of 4 keys; ring: sizes 1..3 with symbolic counters and revisions; hand-over: watch registration racing 1 concurrent write with the sequencer and fan-out threads in the schedule (<= 1 delay); slow consumer: 5 queued batches, subscriber buffers of 1, consumer/forwarder/fan-out/removal interleaved (<= 2 delays)",
+        bounds=dict(quick="sequential client: 2-write history, watch from a symbolic start revision (0, below/inside/at/above the cached window) on 4 prefixes, 1 further write, event cache of 2 entries (wraps), optionally served by a node that has just taken over (empty cache); fan-out: 3 watches on different prefixes and one broadcast batch of 3 put/delete events on any of 4 keys; ring: sizes 1..3 with symbolic counters and revisions; hand-over: watch registration racing 1 concurrent write with the sequencer and fan-out threads in the schedule (<= 1 delay); slow consumer: 5 queued batches, subscriber buffers of 1, consumer/forwarder/fan-out/removal interleaved (<= 2 delays)",
                     thorough="2 keys, 2 further writes; ring sizes 1..5; hand-over with 2 concurrent writes and 2 delays; 6 batches and 3 delays"),
         outside="real channel capacities (10000 / 100) other than through the isolated fan-out harness; more than 2 scheduling delays; more than 3 watches on one node, broadcast batches of more than 3 (thorough 5) events",
     ),
@@ -107,10 +107,10 @@ PROPS = {
     ),
     "C06": dict(
         harnesses=[
-            dict(run=B + "VerifC06ListWatch", quick=dict(ops=1, keys=1, val9=0, later=2), thorough=dict(ops=1, keys=2, val9=0, later=3), covers=["put-applied", "delete-applied", "compaction-between", "done"]),
+            dict(run=B + "VerifC06ListWatch", quick=dict(ops=1, keys=1, val9=0, later=2, newleader=1), thorough=dict(ops=1, keys=2, val9=0, later=3, newleader=1), covers=["put-applied", "delete-applied", "compaction-between", "new-leader-refuses-watch", "done"]),
             dict(run=B + "VerifC06Race", quick=dict(preempt=2), thorough=dict(preempt=3), covers=["read-saw-racing-write", "read-missed-racing-write", "done"], stress=10),
         ],
-        bounds=dict(quick="1-write history, list at latest (R), watch from R+1, 2 further symbolic writes (successful and failed) with an optional compaction at any revision in between, reconstruction compared with the list at the latest revision R' and with the reference model; the range read racing a concurrent create and the sequencer (interleaved at store operations, revision dealing and committing, <= 2 scheduling delays), then watch + 1 further write",
+        bounds=dict(quick="1-write history, list at latest (R), watch from R+1, 2 further symbolic writes (successful and failed) with an optional compaction at any revision in between, reconstruction compared with the list at the latest revision R' and with the reference model; alternatively one more write and then the watch goes to a node that has just taken over (empty event cache): refused or complete; the range read racing a concurrent create and the sequencer (interleaved at store operations, revision dealing and committing, <= 2 scheduling delays), then watch + 1 further write",
                     thorough="2 keys, 3 further writes; 3 delays"),
         outside="the watch registration racing writes (C05 hand-over harness); intermediate R' (only the latest is compared); more than one concurrent writer",
     ),
@@ -131,7 +131,7 @@ PROPS = {
         harnesses=[
             dict(run="pkg/server/etcd.VerifC16Classify", quick=dict(maxcmp=1, maxfail=1), thorough=dict(maxcmp=2, maxfail=2), covers=["rejected", "executed-create", "executed-update", "executed-delete", "compact-probe"]),
             dict(run="pkg/server/etcd.VerifC16Answers", quick=dict(ops=2, keys=2), thorough=dict(ops=3, keys=2), covers=["create-ok", "update-ok", "update-failed", "delete-ok", "delete-failed", "unguarded-delete-ok", "list-cut", "done"]),
-            dict(run="pkg/server/etcd.VerifC16WatchMapping", quick=dict(keys=1), thorough=dict(keys=2), covers=["put-event", "delete-event", "no-event"]),
+            dict(run="pkg/server/etcd.VerifC16WatchMapping", quick=dict(keys=1), thorough=dict(keys=2), covers=["put-event", "delete-event", "no-event", "replayed-from-cache"]),
         ],
         bounds=dict(quick="transactions with 0..1 compares (target MOD/VERSION/CREATE, result EQUAL/GREATER/NOT_EQUAL, 2 keys + the compaction key, symbolic revision), 0..2 success ops and 0..1 failure ops of kind put/range/delete-range with symbolic option flags and optional range_end; answers: histories of 2 supported transactions over 2 keys with symbolic expected revisions, then get / list (limits 0..n+1) / count-only; watch mapping: 1 write before and 1 after the watch",
                     thorough="0..2 compares, 0..2 failure ops; histories of 3 transactions"),
@@ -153,9 +153,10 @@ PROPS = {
             dict(run="pkg/server/etcd.VerifC18Etcd", covers=["write-applied", "write-forwarded", "write-rejected", "read-served", "read-refused", "watch-served", "watch-forwarded", "watch-rejected"]),
             dict(run="pkg/server/brain.VerifC18Brain", covers=["write-applied", "write-rejected", "read-served", "read-refused", "watch-served", "watch-rejected"]),
             dict(run="pkg/server/service/revision.VerifC18Sync", covers=["adopted", "refused"]),
+            dict(run="pkg/server.VerifC18Status", covers=["adopted", "refused"]),
             dict(run="pkg/server/service/revision.VerifC18Concurrent", quick=dict(preempt=2), thorough=dict(preempt=3), covers=["done"], stress=5),
         ],
-        bounds=dict(quick="every handler of both APIs (etcd Txn x3 shapes, Range get/list/count/partitions, Watch; native Create/Update/Delete/Compact/Get/Range/Count/ListPartition/RangeStream/Watch) x {leader, follower} x {proxy on, off} x {leader reachable, unreachable}; watch start revision symbolic; the real revision syncer against a leader that answers with a symbolic revision / an error status / not at all / with its answer cut after the headers; 2 concurrent follower reads sharing the real single-flight fetch while the leader commits a write (<= 2 scheduling delays)",
+        bounds=dict(quick="every handler of both APIs (etcd Txn x3 shapes, Range get/list/count/partitions, Watch; native Create/Update/Delete/Compact/Get/Range/Count/ListPartition/RangeStream/Watch) x {leader, follower} x {proxy on, off} x {leader reachable, unreachable}; watch start revision symbolic; the real revision syncer against a leader that answers with a symbolic revision / an error status / not at all / with its answer cut after the headers; the real syncer against the real /status handler of a node that is / is not leader (response writer with net/http's status contract); 2 concurrent follower reads sharing the real single-flight fetch while the leader commits a write (<= 2 scheduling delays)",
                     thorough="3 scheduling delays for the concurrent reads; the handler enumeration is complete in both tiers"),
         outside="TLS / schema retry of the syncer (http only); the etcd proxy client; more than 2 concurrent follower reads",
     ),
